@@ -148,7 +148,7 @@ def check_lock_order(run, world, label=''):
     return edges, nviol
 
 
-def check_dashmap_discipline(run, world, label=''):
+def check_dashmap_discipline(run, world, label='', namer=None):
     """L2: nothing blocking is acquired while a DashMap reference/iterator local may be alive"""
     n = 0
     bad = 0
@@ -159,7 +159,7 @@ def check_dashmap_discipline(run, world, label=''):
         for c, (m, w) in held.items():
             if c == 'STORE_DM' or c.startswith('DM:'):
                 bad += 1
-                run.bad('C17-L2', '%s%s/%s-under-dashmap-ref' % (label, a.body.name, a.cls),
+                run.bad('C17-L2', '%s%s/%s-under-dashmap-ref' % (label, namer(a.body) if namer else a.body.name, a.cls),
                         '%s is acquired at %s while a DashMap entry reference / iterator may still be alive (shard lock held)' % (a.cls, a.span),
                         site='%s (%s)' % (a.body.name, a.span), path=[('%s bb%d %s' % x) for x in w],
                         oracle='drop the DashMap reference before any other lock or DashMap operation')
@@ -292,7 +292,7 @@ def check_registration(run, ctx, world, edges):
 
 
 # ------------------------------------------------------------------------------------------------
-def check_reborrow(run, world, label=''):
+def check_reborrow(run, world, label='', namer=None):
     """C16-R1: a RefCell class is borrowed while a conflicting borrow of the same class may be live"""
     n = 0
     bad = 0
@@ -322,7 +322,7 @@ def check_reborrow(run, world, label=''):
 
 
 # ------------------------------------------------------------------------------------------------
-def check_yield(run, world, label='', only=None):
+def check_yield(run, world, label='', only=None, namer=None):
     n = 0
     bad = 0
     for body, b, held in world.yields():
@@ -331,7 +331,7 @@ def check_yield(run, world, label='', only=None):
         n += 1
         if held:
             bad += 1
-            run.bad('C20-L1', '%syield/%s' % (label, body.name), 'guard(s) %s may be alive at the await point %s: a suspended or dropped call would keep the lock'
+            run.bad('C20-L1', '%syield/%s' % (label, namer(body) if namer else body.name), 'guard(s) %s may be alive at the await point %s: a suspended or dropped call would keep the lock'
                     % (sorted({c for (_, c, _) in held}), body.loc(b)), site='%s (%s)' % (body.name, body.loc(b)), oracle='held set empty at every Yield')
         else:
             run.ok('C20-L1', '%syield/%s/bb%d' % (label, body.name, b), 'no guard-carrying local is live at %s' % body.loc(b))
